@@ -98,6 +98,8 @@ type vsResp struct {
 	status    int
 	close     bool
 	keepAlive bool
+	tag       string // value of the X-Tag header, if any
+	body      string
 }
 
 func vsParseResponses(w []byte) (rs []vsResp, ok bool) {
@@ -134,6 +136,10 @@ func vsParseResponses(w []byte) (rs []vsResp, ok bool) {
 			if c05FoldEq(line, "Connection: keep-alive") {
 				r.keepAlive = true
 			}
+			const tagp = "X-Tag: "
+			if len(line) > len(tagp) && c05FoldEq(line[:len(tagp)], tagp) {
+				r.tag = string(line[len(tagp):])
+			}
 			const clp = "Content-Length: "
 			if len(line) > len(clp) && c05FoldEq(line[:len(clp)], clp) {
 				for _, d := range line[len(clp):] {
@@ -144,6 +150,7 @@ func vsParseResponses(w []byte) (rs []vsResp, ok bool) {
 		if i+cl > len(w) {
 			return rs, false
 		}
+		r.body = string(w[i : i+cl])
 		i += cl
 		rs = append(rs, r)
 	}
